@@ -112,6 +112,16 @@ func (cache *MemoryCache[K, V]) Set(key K, value V, ttlSec float64) error {
 		ttlDuration.Nanoseconds()
 
 	cache.mutex.Lock()
+	if cache.calculateCacheSize &&
+		cache.currentCacheSize+itemSize > cache.maxCacheSize {
+		// another Set may have been added since the check above
+		currentCacheSize := cache.currentCacheSize
+		cache.mutex.Unlock()
+		return fmt.Errorf(
+			"Cannot add item: max cache size would be exceeded."+
+				" Current cache size is %v",
+			currentCacheSize)
+	}
 	cache.cache[key] = ValueWrapper[V]{value, expirationTimeNano}
 	if cache.calculateCacheSize {
 		cache.currentCacheSize += itemSize
